@@ -61,6 +61,9 @@ type facts struct {
 
 var fset = token.NewFileSet()
 
+// functions of package build (collect.go, fingerprint.go, build.go) by name
+var pkgFuncs = map[string]*ast.FuncDecl{}
+
 func str(n ast.Node) string {
 	var sb strings.Builder
 	printer.Fprint(&sb, fset, n)
@@ -126,6 +129,28 @@ func leaves(e ast.Expr, defs map[string][]ast.Expr, seen map[string]bool, out ma
 		case *ast.CallExpr:
 			if c := chain(x.Fun); c != nil && c[0] != "m" {
 				out["call:"+strings.Join(c, ".")] = true
+				// one level into functions of package build: what they read flows into the field too
+				if callee, ok := pkgFuncs[c[len(c)-1]]; ok && (len(c) == 1 || c[0] == "c") && !strings.HasPrefix(c[len(c)-1], "digestFiles") {
+					name := c[len(c)-1]
+					ast.Inspect(callee.Body, func(m ast.Node) bool {
+						switch y := m.(type) {
+						case *ast.SelectorExpr:
+							if cc := chain(y); cc != nil {
+								out["via:"+name+":"+strings.Join(cc, ".")] = true
+								return false
+							}
+						case *ast.CallExpr:
+							if cc := chain(y.Fun); cc != nil {
+								out["via:"+name+":call:"+strings.Join(cc, ".")] = true
+							}
+						case *ast.BasicLit:
+							if y.Kind == token.STRING && len(y.Value) < 40 {
+								out["via:"+name+":lit:"+y.Value] = true
+							}
+						}
+						return true
+					})
+				}
 			}
 		case *ast.Ident:
 			if ds, ok := defs[x.Name]; ok && !seen[x.Name] {
@@ -219,6 +244,11 @@ func main() {
 	cross := parse(filepath.Join(repo, "internal", "crosscompile", "crosscompile.go"), f)
 	chash := parse(filepath.Join(repo, "cmd", "internal", "compilerhash", "compilerhash.go"), f)
 	cf, ff, bf := funcs(collect), funcs(fingerprint), funcs(build)
+	for _, fm := range []map[string]*ast.FuncDecl{bf, ff, cf} {
+		for k, v := range fm {
+			pkgFuncs[k] = v
+		}
+	}
 
 	// ---- which collectors does collectFingerprint call, and what is the key
 	if fd := cf["collectFingerprint"]; fd != nil {
